@@ -468,7 +468,7 @@ func vtC11Exact(v int64) int64 {
 
 func vtC11CPUGen(rnd *rand.Rand, idx int) (string, []int64) {
 	style := []string{"pressure", "pressure", "pressure", "mixed", "calm", "degenerate"}[rnd.Intn(6)]
-	unit := int64([]int{16, 64, 128}[rnd.Intn(3)])
+	unit := int64([]int{128, 256, 512}[rnd.Intn(3)])
 	cap := int64(4+rnd.Intn(124)) * 1000
 	pct := int64(50 + rnd.Intn(51))
 	if style == "pressure" {
